@@ -5,6 +5,12 @@ at each position a segment valid for the current value (p~0.8) or an invalid one
 of a chosen kind; after the first invalid segment 0-3 arbitrary further
 segments.  The same logical path is evaluated in every spelling it admits
 (dotted string, Path(...), pure T, Path mixed with T chunks).
+Two families of failing segments are constructed rather than left to the list of invalid segments:
+near misses (near_misses(): another spelling / another type of an existing mapping key - '0' beside the key 0,
+1 beside '1', 'A' or ' a ' beside 'a' - and the two indexes just outside a sequence; one case in five is built for
+them: mapping at the root, integer keys / digit strings / re-spelt strings side by side) and slice steps
+(op 'S' = T[a:b:c], applied to every kind of value: sliced sequences and strings, refused slices - step 0, bounds
+that are no integers - and values that cannot be sliced at all: mappings, None, numbers, attribute objects).
 
 Oracle: refwalk() below - a 15-line walker written from the statement
 (mapping key / int-coerced sequence index / otherwise attribute).
@@ -22,11 +28,13 @@ PROPERTY = 'C01'
 RULE = ('targets: recursive recipes over dict/OrderedDict/list/tuple/attribute objects/scalars/None '
         '(empty, shared and cyclic sub-objects, recording subclasses); paths: 0-6 segments obtained by '
         'walking the target, valid or invalid at every position, each evaluated in every spelling it '
-        'admits. Non-trivial = path length >= 2 and (first failure at segment k >= 1, or success '
+        'admits; near-miss segments (twin spellings of mapping keys, edge indexes) and T slice steps on every kind '
+        'of value are constructed classes. Non-trivial = path length >= 2 and (first failure at segment k >= 1, or success '
         'through >= 2 different container kinds). Distinct = distinct recipe hash.')
 ASSUMPTIONS = [
     'reference walker refwalk() transcribes the statement: mapping -> cur[seg], list/tuple -> cur[int(seg)], else getattr',
     'identity is required for containers; immutable atoms and bound methods are compared by == (Python gives no identity guarantee)',
+    'the value of a FINAL slice step on a list/tuple is built anew by Python on every evaluation: same type, same length and the very same elements are required instead of identity',
     'targets have well-behaved __eq__/__repr__; recording subclasses of dict/list/object log item/attribute access',
 ]
 BOUNDS = {'quick': {'depth': 4, 'width': 3, 'path_len': 6}, 'thorough': {'depth': 5, 'width': 4, 'path_len': 8}}
@@ -43,7 +51,14 @@ def kind_of(v):
     return 'attr'
 
 
+def seg_value(op, seg):
+    """the segment as glom sees it: an 'S' step carries its slice as the JSON list [start, stop, step]"""
+    return slice(*seg) if op == 'S' else seg
+
+
 def ref_step(cur, op, seg):
+    if op == 'S':
+        return cur[slice(*seg)]
     if op == 'P':
         k = kind_of(cur)
         if k == 'map':
@@ -57,37 +72,121 @@ def ref_step(cur, op, seg):
 
 
 def refwalk(target, steps):
-    """returns ('ok', obj, kinds) or ('err', k, exc)"""
+    """returns ('ok', obj, None, kinds, values) or ('err', k, exc, kinds, values);
+    values[j] is the value segment j was applied to"""
     cur = target
     kinds = []
+    vals = []
     for k, (op, seg) in enumerate(steps):
         kinds.append(kind_of(cur))
+        vals.append(cur)
         try:
             cur = ref_step(cur, op, seg)
         except Exception as e:
-            return ('err', k, e, kinds)
-    return ('ok', cur, None, kinds)
+            return ('err', k, e, kinds, vals)
+    return ('ok', cur, None, kinds, vals)
 
 
 INVALID_SEGS = ['zz', 'missing', '9', '-9', 'x y', '', '1.5', 99, -99, None]
 ATTRS = ['a', 'b', 'c', 'x', 'real', 'zz']
 
 
+def near_misses(cur):
+    """[(class, segment)]: segments that do NOT address anything in `cur` but sit next to something that does -
+    another spelling / another type of an existing mapping key ("mapping key": the segment as written, no coercion:
+    {0: x} has no key '0', {'1': x} has no key 1, {'a': x} has no key 'A' or ' a '), and the two indexes just outside
+    a sequence.  Every one of them must fail at this segment; which ones exist depends on the value, so the generator
+    asks for them here and the check labels them with the same function."""
+    out = []
+    k = kind_of(cur)
+    if k == 'map':
+        for key in dict.keys(cur):
+            cands = []
+            if type(key) is int:
+                cands += [('twin-str-of-int-key', str(key)), ('twin-str-of-int-key', ' %d ' % key)]
+                if key >= 0:
+                    cands.append(('twin-str-of-int-key', '0%d' % key))
+            elif type(key) is str:
+                try:
+                    cands.append(('twin-int-of-str-key', int(key)))
+                except ValueError:
+                    pass
+                for other in (key.strip(), ' %s ' % key, key.swapcase()):
+                    if other != key:
+                        cands.append(('twin-respelt-str-key', other))
+            for tag, c in cands:
+                if not dict.__contains__(cur, c) and (tag, c) not in out:
+                    out.append((tag, c))
+    elif k == 'seq':
+        n = len(cur)
+        for c in (n, -n - 1):
+            out += [('edge-index', c), ('edge-index', str(c))]
+    return out
+
+
+def near_miss_class(cur, op, seg):
+    if op in ('P', '['):
+        for tag, c in near_misses(cur):
+            if type(c) is type(seg) and c == seg:
+                return tag
+    return None
+
+
+TWIN_KEYS = ['a', 'B', 'k.d', '', '0', '1', '7', ' 1 ', '-1', 0, 1, 2, 7, 10, -1]
+SLICE_BOUNDS = [None, None, 0, 1, 2, -1, -2, 5]
+SLICE_STEPS = [None, None, None, 1, 2, -1]
+SLICEABLE = (list, tuple, str, bytes)
+
+
+def draw_slice(draw, cur, valid):
+    """[start, stop, step] of an 'S' step.  valid (cur is a sequence or a string): integer bounds and a non-zero step;
+    otherwise, on a sliceable value, a slice that Python refuses (step 0 / a bound that is no integer); on any other
+    value (mapping, None, number, attribute object) every slice is refused, so any of the three kinds"""
+    if valid:
+        kind = 'plain'
+    elif isinstance(cur, SLICEABLE):
+        kind = draw(st.sampled_from(['step0', 'step0', 'badbound']))
+    else:
+        kind = draw(st.sampled_from(['plain', 'plain', 'step0', 'badbound']))
+    sl = [draw(st.sampled_from(SLICE_BOUNDS)), draw(st.sampled_from(SLICE_BOUNDS)), draw(st.sampled_from(SLICE_STEPS))]
+    if kind == 'step0':
+        sl[2] = 0
+    elif kind == 'badbound':
+        sl[draw(st.sampled_from([0, 1]))] = draw(st.sampled_from(['a', '1', 1.5]))
+    return sl
+
+
 def gen(draw):
     big = runner_mod.thorough()
-    trecipe = tg.target_recipes(draw, depth=5 if big else 4, width=4 if big else 3)
+    depth, width = (5, 4) if big else (4, 3)
+    # one case in five aims at the twin keys of mappings: the root is a mapping, mappings hold integer keys, digit
+    # strings and re-spelt strings side by side, and at a mapping the walk takes a near miss with p = 1/2
+    twin = draw(st.sampled_from([False, False, False, False, True]))
+    if twin:
+        ks = draw(st.lists(st.sampled_from(TWIN_KEYS), min_size=1, max_size=width, unique_by=repr))
+        trecipe = [draw(st.sampled_from(['dict', 'odict', 'rdict'])),
+                   [[k, tg.target_recipes(draw, depth=depth - 1, width=width, keys=TWIN_KEYS)] for k in ks]]
+    else:
+        trecipe = tg.target_recipes(draw, depth=depth, width=width)
     b = tg.build(trecipe)
     cur = b.obj
     steps = []
-    n = draw(st.integers(0, 8 if big else 6))
+    n = draw(st.integers(1 if twin else 0, 8 if big else 6))
     failed = False
     for _ in range(n):
-        op = draw(st.sampled_from(['P', 'P', 'P', 'P', '[', '.']))
+        op = draw(st.sampled_from(['P', 'P', 'P', 'P', 'P', '[', '.', 'S']))
         valid = (not failed) and draw(st.integers(0, 9)) < 8
         seg = None
+        aimed = bool(twin and not failed and op in ('P', '[') and kind_of(cur) == 'map' and near_misses(cur)
+                     and draw(st.booleans()))
+        if aimed:
+            valid = False
         if valid:
             k = kind_of(cur)
-            if k == 'map' and len(cur) and op in ('P', '['):
+            if op == 'S':
+                if isinstance(cur, SLICEABLE) and draw(st.integers(0, 3)):
+                    seg = draw_slice(draw, cur, True)
+            elif k == 'map' and len(cur) and op in ('P', '['):
                 seg = draw(st.sampled_from(list(dict.keys(cur))))
             elif k == 'seq' and len(cur) and op in ('P', '['):
                 i = draw(st.integers(-len(cur), len(cur) - 1))
@@ -104,7 +203,13 @@ def gen(draw):
             if seg is None:
                 valid = False
         if not valid:
-            if op == '.':
+            near = near_misses(cur) if (not failed and op in ('P', '[')) else []
+            if op == 'S':
+                seg = draw_slice(draw, cur, False)
+            elif near and (aimed or draw(st.booleans())):
+                tag = draw(st.sampled_from(sorted(set(t for t, _ in near))))      # first the class, then one of its segments
+                seg = draw(st.sampled_from([c for t, c in near if t == tag]))
+            elif op == '.':
                 seg = draw(st.sampled_from(ATTRS))
             else:
                 seg = draw(st.sampled_from(INVALID_SEGS + ATTRS))
@@ -128,7 +233,7 @@ def spellings(steps):
         out.append('str')
         out.append('strsub')       # the same dotted text as an instance of a str subclass (e.g. a str-Enum member)
     out.append('path')
-    if steps and all(o in '[.' for o in ops):
+    if steps and all(o in ('[', '.', 'S') for o in ops):
         out.append('t')
     if all(o == 'P' for o in ops):
         out.append('path-nested')
@@ -147,7 +252,7 @@ def make_spec(steps, spelling):
     if spelling == 't':
         t = T
         for op, seg in steps:
-            t = t[seg] if op == '[' else getattr(t, seg)
+            t = t[seg_value(op, seg)] if op in ('[', 'S') else getattr(t, seg)
         return t
     if spelling == 'path-nested':
         half = len(steps) // 2
@@ -156,8 +261,8 @@ def make_spec(steps, spelling):
     for op, seg in steps:
         if op == 'P':
             parts.append(seg)
-        elif op == '[':
-            parts.append(T[seg])
+        elif op in ('[', 'S'):
+            parts.append(T[seg_value(op, seg)])
         else:
             parts.append(getattr(T, seg))
     return Path(*parts)
@@ -180,6 +285,16 @@ def check(recipe, ctx):
     ctx.label('exp-' + exp[0], 'len-%d' % min(len(steps), 3))
     if exp[0] == 'err':
         ctx.label('fail-at-%s' % ('0' if exp[1] == 0 else 'k>=1'))
+        op_k, seg_k = steps[exp[1]]
+        nm = near_miss_class(exp[4][exp[1]], op_k, seg_k)
+        if nm:
+            # (the first failing segment is a near miss of the value it is applied to)
+            ctx.label('near-miss', nm, '%s-%s' % (nm, 'P' if op_k == 'P' else 'T'))
+    # slice steps that are reached, by the kind of value they are applied to
+    ctx.label(*sorted(set('slice-on-%s' % ('text' if isinstance(v, (str, bytes)) else 'other' if kd == 'attr' else kd)
+                          for (o, _), kd, v in zip(steps, exp[3], exp[4]) if o == 'S')))
+    if exp[0] == 'err' and steps[exp[1]][0] == 'S':
+        ctx.label('slice-refused', 'slice-refused-%s' % type(exp[2]).__name__)
     nt = len(steps) >= 2 and ((exp[0] == 'err' and exp[1] >= 1) or
                               (exp[0] == 'ok' and len(set(exp[3])) >= 2))
     ctx.nontrivial(nt)
@@ -201,11 +316,11 @@ def check(recipe, ctx):
         if exp[0] == 'ok':
             if err is not None:
                 raise Mismatch('spurious-error', '%s: reference succeeds, glom raised %r' % (where, err))
-            if not tg.same(got, exp[1]):
+            if not (tg.same(got, exp[1]) or (steps and steps[-1][0] == 'S' and same_slice(got, exp[1]))):
                 raise Mismatch('wrong-object', '%s: expected the object %r (id %x), got %r (id %x)'
                                % (where, exp[1], id(exp[1]), got, id(got)))
         else:
-            _, k, E, _ = exp
+            _, k, E, _, _ = exp
             if err is None:
                 raise Mismatch('missing-error', '%s: reference fails at %d with %r, glom returned %r'
                                % (where, k, E, got))
@@ -218,7 +333,7 @@ def check(recipe, ctx):
                 pvals = tuple(Path(err.path).values()) if not isinstance(err.path, Path) else tuple(err.path.values())
             except Exception as e2:
                 raise Mismatch('bad-path-attr', '%s: error.path unusable: %r' % (where, e2))
-            if pvals != tuple(s for _, s in steps):
+            if pvals != tuple(seg_value(o, s) for o, s in steps):
                 raise Mismatch('wrong-path-attr', '%s: error.path is %r' % (where, err.path))
             _catchable(target, spec, where)
         if got_log != exp_log:
@@ -227,6 +342,13 @@ def check(recipe, ctx):
         if d:
             raise Mismatch('target-mutated', '%s: %s' % (where, d))
     ctx.outcome([exp[0], exp[1] if exp[0] == 'err' else repr(exp[1])[:80], sps])
+
+
+def same_slice(got, exp):
+    """the value of a final slice step: Python builds the slice of a list / tuple anew on every evaluation, so there
+    is no single "very object"; it must have the same type and hold the very same elements in the same order"""
+    return (type(got) is type(exp) and isinstance(exp, (list, tuple)) and len(got) == len(exp)
+            and all(tg.same(a, b) for a, b in zip(got, exp)))
 
 
 def _catchable(target, spec, where):
@@ -316,7 +438,10 @@ def check_registered(recipe, ctx):
 
 SUBS = [
     Sub('walk', check, gen=gen, quick=6000, thorough=15000,
-        floors={'exp-ok': 0.2, 'exp-err': 0.2, 'fail-at-k>=1': 0.08, 'spelling-str': 0.07, 'spelling-t': 0.01}),
+        floors={'exp-ok': 0.2, 'exp-err': 0.2, 'fail-at-k>=1': 0.08, 'spelling-str': 0.07, 'spelling-t': 0.01,
+                'twin-str-of-int-key-P': 0.009, 'twin-int-of-str-key': 0.006, 'twin-respelt-str-key': 0.011,
+                'edge-index': 0.022, 'slice-on-map': 0.025, 'slice-on-seq': 0.013,
+                'slice-refused-KeyError': 0.025, 'slice-refused-TypeError': 0.012, 'slice-refused-ValueError': 0.004}),
     Sub('registered', check_registered, gen=gen_registered, quick=1200, thorough=5000,
         floors={'registered': 0.3, 'not-yet-registered': 0.1}),
 ]
